@@ -6,7 +6,7 @@
     Project, ProjectValues, in any interleaving. A Key is the position of its
     keyNode in the projection's list of interned rows (Go: pointer identity). *)
 From Perf Require Import Base.Bytes Model.Name Model.Extract Model.Key Model.Projection
-  Proofs.Key Proofs.Projection Proofs.Exclusion.
+  Proofs.Key Proofs.Projection Proofs.Exclusion Proofs.KeyGet.
 
 (** intern_inv (1): after any stream of calls, in every projection the interned
     rows are pairwise distinct, carry no trailing empty string, and are no longer
@@ -64,20 +64,48 @@ Proof.
 Qed.
 Print Assumptions C08_key_eq_iff_values.
 
-(** key_get_extracted, proved part ("_partial"): the Key returned by Project reads
-    at every index exactly what the projection closures left in the row buffer.
-    Full statement (not proved; checked on the implementation by
-    RunC08.prop_ok/op_ok on every generated stream): that buffer holds, for a
-    specific key kappa, [extract kappa name config] (C05); for .fullname,
-    [extractor_fullname E name] with E the specific name keys of all Parse calls;
-    for a sub-field c of .config, the file value of c; and "" for .unit. *)
-Theorem C08_key_get_row_partial : forall pp p r,
+(** key_get_extracted: after ANY stream of calls (on results whose configuration
+    keys are distinct, as benchfmt maintains), the Key that Project returns for a
+    result r holds, in EVERY field of the projection as it is after the call:
+    - a field made for a specific key [key] (it is named [key]): [Extract.extract
+      key] of r — whose meaning is given by the C05 theorems (.name, /k,
+      /gomaxprocs, plain configuration keys, file or internal);
+    - .fullname: the full name with the parts of the excluded name keys deleted,
+      [Extract.extractor_fullname E], E being the exclude list of the parser's
+      full-name extractor: the one it was built from at its first use, or — while
+      it is not built — all specific name keys of all Parse calls so far
+      ([ext_of]; C08_ext_after_parsing);
+    - a sub-field of a .config group (named by its configuration key): the value of
+      that FILE configuration key in r, "" if r has none;
+    - .unit: "" (Project leaves it empty; ProjectValues fills it).
+    [fi_src] is the ghost tag saying which closure owns the field. *)
+Theorem C08_key_get_extracted : forall ops w xs pi p r,
+  Forall op_wf ops -> run_ops new_world ops = (w, xs) -> nth_error (w_projs w) pi = Some p ->
+  NoDup (map c_key (r_cfg r)) ->
+  let '(pp', p', k) := project (w_pp w) p r in
+  forall idx f, nth_error (p_fields p') idx = Some f ->
+    match fi_src f with
+    | SKey key => fi_name f = key /\ key_get p' k idx = extract key (r_name r) (r_cfg r)
+    | SFull => key_get p' k idx = extractor_fullname (ext_of (w_pp w)) (r_name r)
+    | SCfg => key_get p' k idx = cfg_file_val (r_cfg r) (fi_name f)
+    | SUnit => key_get p' k idx = []
+    end.
+Proof. exact key_get_extracted_reachable. Qed.
+Print Assumptions C08_key_get_extracted.
+
+Theorem C08_ext_after_parsing : forall calls,
+  ext_of (parser_after calls) = pp_full (parser_after calls).
+Proof. intros calls. unfold ext_of. now rewrite parser_after_fullext. Qed.
+Print Assumptions C08_ext_after_parsing.
+
+(** the Key reads exactly what populateRow left in the row buffer *)
+Theorem C08_key_get_row : forall pp p r,
   KInv p ->
   let '(pp1, p1) := populate pp p r in
   let '(pp', p', k) := project pp p r in
   pp' = pp1 /\ forall idx, key_get p' k idx = nth idx (p_row p1) [].
 Proof. exact key_get_row. Qed.
-Print Assumptions C08_key_get_row_partial.
+Print Assumptions C08_key_get_row.
 
 Theorem C08_project_values_length : forall pp p r,
   let '(_, _, ks) := project_values pp p r in length ks = length (r_units r).
